@@ -636,6 +636,10 @@ class SymReal:
 
     __hash__ = None
 
+    def __bool__(self):
+        # Python truthiness of a number: x != 0
+        return Engine.cur.branch(self.t != 0)
+
     def __float__(self):
         raise TypeError("symbolic real reached a native float boundary")
 
@@ -663,6 +667,9 @@ class SymInt:
         return Engine.cur.concretize_int(self.t)
 
     __int__ = __index__
+
+    def __bool__(self):
+        return Engine.cur.branch(self.t != 0)
 
     def __float__(self):
         return float(self.__index__())
